@@ -310,6 +310,10 @@ class ExecutionState:
         with self._replay_status_lock:
             if self._replay_status == ReplayStatus.REPLAY:
                 self._visited_operations.add(operation_id)
+                # Whatever history holds beneath this operation is behind us as well: a context that
+                # is replayed from its record does not run its body again, so the operations inside it
+                # are never visited one by one - without this the logger would stay muted for good.
+                self._visited_operations.update(self._recorded_descendants(operation_id))
                 completed_ops = {
                     op_id
                     for op_id, op in self.operations.items()
@@ -329,6 +333,21 @@ class ExecutionState:
                         operation_id,
                     )
                     self._replay_status = ReplayStatus.NEW
+
+    def _recorded_descendants(self, operation_id: str) -> set[str]:
+        """Ids of all operations recorded (directly or transitively) beneath the given operation."""
+        children: dict[str, list[str]] = {}
+        for op in self.operations.values():
+            if op.parent_id:
+                children.setdefault(op.parent_id, []).append(op.operation_id)
+        descendants: set[str] = set()
+        to_process: list[str] = [operation_id]
+        while to_process:
+            for child_id in children.get(to_process.pop(), ()):
+                if child_id not in descendants:
+                    descendants.add(child_id)
+                    to_process.append(child_id)
+        return descendants
 
     def is_replaying(self) -> bool:
         """Check if execution is currently in replay mode.
